@@ -192,6 +192,8 @@ def main():
     add('a_gate1_mem', 'A', gates=1, mem='1KB', policy='lfu', group='gate')
     add('a_gate1_tag1', 'A', gates=1, tags=['t1'], group='gate')
     add('a_gate1_res', 'A', gates=1, ret='Result<u64, u8>', group='gate')
+    add('a_gate1_inv', 'A', gates=1, inv=True, group='gate')
+    add('a_gate2_inv_cif_l2', 'A', gates=2, inv=True, cif=True, limit=2, policy='lru', group='gate')
 
     lines = ['// @generated by gen_subjects.py -- do not edit', '']
     lines += ['#[derive(Debug, Clone, PartialEq)]', 'pub struct Pt { pub x: u32, pub y: u32 }', 'impl cachelito_core::DefaultCacheableKey for Pt {}', '']
